@@ -65,6 +65,7 @@ extern int env_dlsym_fail_at;          /* n-th dlsym (1-based) returns NULL; 0 =
 extern int env_lock_depth;             /* rwlock monitor: current depth */
 extern int env_isal_force_singular;
 extern int env_lock_blocking;          /* C18 */
+extern int env_lock_writer, env_lock_readers;
 extern void (*env_yield_hook)(int id); /* C18: scheduler called at the LIBERASURECODE_VERIF_YIELD sites */    /* gf_invert_matrix reports failure */
 
 #endif
